@@ -1,8 +1,8 @@
 CONSTANTS Carriers = {"vps"} Vals = {"a", "b"} Labels = {"p"} Times = {} Bads = {}
   WssWords = {"x", "y"} MaxRecv = 9 UnknownOnce = TRUE XdsGuard = TRUE Calls = {}
-  Handlers = {"h1", "h2"} InitMasks = {{"NETWORK", "NETWORK_ID", "PROG_ID", "LOCAL_TIME", "ASPECT", "TTX_PAGE", "CAPTION"}, {"NETWORK", "TTX_PAGE"}} RegMasks = {{"ASPECT"}, {"PROG_INFO", "TTX_PAGE"}} Apis = {"reg"} MaxReg = 2
+  Handlers = {"h1", "h2"} InitMasks = {{"NETWORK", "NETWORK_ID", "PROG_ID", "LOCAL_TIME", "ASPECT", "TTX_PAGE", "CAPTION"}, {"NETWORK", "TTX_PAGE"}} RegMasks = {{"ASPECT"}, {"PROG_INFO", "TTX_PAGE"}} Apis = {"reg"} MaxReg = 2 CdLen = 40 IdleSteps = {} MaxGap = 0 MaxIdle = 0
 SPECIFICATION Spec
 CONSTRAINT Bounded
 INVARIANTS TypeOK Faithful
-PROPERTIES OfThisReception OnlyAfterRepeat VpsLabelTwice NetworkMeansChange OneNetworkEvent NotAgainWhileSame StationKept CacheKept CacheDropped Gated WssOnlyAfterRepeats AspectRevertOnlyOnChange
+PROPERTIES OfThisReception OnlyAfterRepeat VpsLabelTwice NetworkMeansChange OneNetworkEvent NotAgainWhileSame StationKept CacheKept CacheDropped Gated WssOnlyAfterRepeats AspectRevertOnlyOnChange GapKeeps DropOutOnce
 CHECK_DEADLOCK FALSE
